@@ -104,6 +104,16 @@ example : importURL "url( \"x\" )".toList = "\"x\"".toList := by decide
 example : importURL "url(  )".toList = "\"\"".toList := by decide
 example : importURL "url('a b.css')".toList = "'a b.css'".toList := by decide
 
+/-- **import_target_ok** (prelude equivalence of `@import`; guard `importGuard`: the lexeme ends in exactly one `)`, an
+unquoted URL has no backslash, not a `data:` URI): the string written names the same resource as the `url(…)` read
+(`Spec.CssGrammar.importTarget`: content without surrounding white space and quotes) -/
+theorem import_target_ok (url : List Char) (h : importGuard url = true) :
+    importTarget (.mk .string (importURL url) []) = importTarget (.mk .url url []) :=
+  import_target url h
+
+example : importGuard "url( foo.css )".toList = true ∧ importGuard "url(\"a b.css\")".toList = true ∧
+    importGuard "url(x)".toList = true := by decide
+
 /-! ## comments and custom properties -/
 
 /-- **bang_comment_kept**: a comment `/*!…*/` with content is written as `/*!` + its content with white-space runs
@@ -199,6 +209,21 @@ theorem attr_unquote_plain (st : SelSt) (t : Tok) (r : List Tok) (hA : st.inAttr
   have hb' : '\\' ∈ t.data.tail.dropLast := by simpa using hb
   by_cases hl : 2 < t.data.length <;> simp [selGo, hA, ht, hb', hl]
 
+/-- **selector_sep_outside** (separation outside `[…]`, every token list): the tokens written outside attribute
+selectors have, one by one, the kind (token class, delimiter character) of the tokens read — nothing is inserted,
+removed or merged there, identifiers are only respelled … -/
+theorem selector_sep_outside (ts : List Tok) : kindsOutside false (selToks ts) = kindsOutside false ts :=
+  kindsOutside_selToks ts
+
+/-- … hence the written tokens re-lex as themselves wherever the parser's tokens do: whether two adjacent tokens
+must be kept apart (CSS Syntax 3 §9) depends on their kinds only -/
+theorem selector_reparses (ts : List Tok) (h : sepFree (kindsOutside false ts) = true) :
+    sepFree (kindsOutside false (selToks ts)) = true := by
+  rw [selector_sep_outside]; exact h
+
+example : sepFree (kindsOutside false exSel) = true ∧
+    sepFree [kindOf (tok .ident "a"), kindOf (tok .ident "b")] = false := by decide
+
 /-! ## `!important` -/
 
 open Verif.Model.Css Verif.Model.CssShorthand in
@@ -244,6 +269,24 @@ agent reads from the bytes of an unquoted family) -/
 def font_ok : Prop :=
   ∀ (vs out : List Tok), (fontDen vs).isSome = true → minifyFont vs = some out →
     fontDen (out.flatMap Verif.Spec.CssValue.asWritten) = fontDen vs
+
+open Verif.Model.Css Verif.Model.CssShorthand Verif.Spec.CssShorthand in
+open Verif.Model.Css Verif.Model.CssShorthand Verif.Spec.CssShorthand Verif.Proofs.CssShorthand in
+/-- **font_ok** (partial; explicit decidable guard `fontGuard`: the family search of the code stops where the grammar
+puts the size or the line-height; family tokens are commas, identifiers and quoted strings without backslash that are
+no generic / CSS-wide keywords — K-C04-6 —; the IE quoting of a leading `-` does not apply): every `font` value of the
+grammar is rewritten to a value with the same component slots — style, variant, weight, stretch, size, line-height
+and the list of families -/
+theorem font_ok_partial (vs : List Tok) (d : FontDen) (hden : fontDen vs = some d) (hg : fontGuard vs = true) :
+    ∃ out, minifyFont vs = some out ∧ fontDen (out.flatMap Verif.Spec.CssValue.asWritten) = some d :=
+  Verif.Proofs.CssShorthand.font_ok_partial vs d hden hg
+
+open Verif.Model.Css Verif.Model.CssShorthand Verif.Spec.CssShorthand Verif.Proofs.CssShorthand in
+/-- the unguarded statement is false: a quoted family that is a generic keyword loses its quotes (K-C04-6, pinned by
+css_test.go) -/
+theorem font_ok_counterexample : ¬ font_ok := fun h =>
+  absurd (h [tok .dimension "12px", tok .string "\"serif\""] [tok .dimension "12px", .mk .string "serif".toList []]
+    (by decide +kernel) (by decide +kernel)) (by decide +kernel)
 
 open Verif.Model.Css Verif.Model.CssShorthand Verif.Spec.CssShorthand in
 /-- every `background` value of the grammar of CSS Backgrounds 3 §3.10 keeps the component slots of every layer -/
